@@ -439,6 +439,17 @@ func max1(n int) int {
 func replayRace(l *loaded, repoDir, hdir string, vs []*Violation) []bool {
 	out := make([]bool, len(vs))
 	for i, v := range vs {
+		if v.Label == "deadlock" {
+			// a deadlock needs the very interleaving the executor found: many native iterations
+			// without the race detector; a hang shows as the test timeout
+			var cases []replayCase
+			for k := 0; k < 30000; k++ {
+				cases = append(cases, replayCase{Entry: v.Entry, Arg: v.Arg, Values: v.Values})
+			}
+			nr := replayNativeT(l, repoDir, hdir, cases, false, "45s")
+			out[i] = strings.Contains(nr.Output, "test timed out") || strings.Contains(nr.Output, "all goroutines are asleep")
+			continue
+		}
 		// each case in its own process: a detected race or a fatal "concurrent map" error ends it
 		var cases []replayCase
 		for k := 0; k < 30; k++ {
